@@ -464,7 +464,7 @@ M("C10", "revert-fix-eviction-by-age", "breaking",
   "L3:server.middleware:RateLimiter._cleanup_loop:eviction-ignores-fill-state")
 M("C10", "drop-min-clamp", "breaking",
   [(MW, "TokenBucket.consume", "self.tokens = min(self.capacity, self.tokens + (elapsed * self.refill_rate))", "self.tokens = self.tokens + (elapsed * self.refill_rate)")],
-  "L1:server.middleware:TokenBucket.consume:unclamped-refill")
+  "L1:server.middleware:TokenBucket.consume:bounds")
 M("C10", "decrement-unguarded", "breaking",
   [(MW, "TokenBucket.consume", "        if self.tokens >= tokens:\n            self.tokens -= tokens\n            return True\n\n        return False\n", "        self.tokens -= tokens\n        return self.tokens >= 0\n")],
   "L1:server.middleware:TokenBucket.consume")
@@ -880,3 +880,21 @@ M("C09", "allow-presence-on-family-subset", "breaking",
   "I1:server.middleware:AccessControl._is_allowed:allow-list-presence")
 M("C09", "benign-iterate-family-subset-only", "benign",
   [(MW, "AccessControl._is_allowed", "        if self.allow_networks:\n            for network in self.allow_networks:\n", "        if self.allow_networks:\n            for network in [n for n in self.allow_networks if n.version == ip_obj.version]:\n")])
+M("C06", "benign-chunked-body-write", "benign",
+  [(P, SR, "        if body:\n            self.transport.write(body)\n", "        for offset in range(0, len(body), 65536):\n            self.transport.write(body[offset : offset + 65536])\n")])
+M("C06", "chunked-write-bound-in-characters", "breaking",
+  [(P, SR, "        if body:\n            self.transport.write(body)\n", "        body_size = len(response.body) if response.body else 0\n        for offset in range(0, body_size, 65536):\n            self.transport.write(body[offset : offset + 65536])\n")],
+  "R3:server.protocol:GeminiServerProtocol._send_response:body-altered")
+M("C11", "benign-guard-is-not-none", "benign",
+  [(SS, GS, "            if self.tofu_db:\n", "            if self.tofu_db is not None:\n"),
+   (SS, "GeminiClient.upload", "            if self.tofu_db:\n", "            if self.tofu_db is not None:\n")])
+M("C11", "store-with-len-makes-flag-true", "breaking",
+  [(TF, "TOFUDatabase", "    def _initialize_db(self) -> None:", "    def __len__(self) -> int:\n        return len(self.list_hosts())\n\n    def _initialize_db(self) -> None:"),
+   (SS, GS, "            if self.tofu_db:\n", "            if self.tofu_db is not None:\n"),
+   (SS, "GeminiClient.upload", "            if self.tofu_db:\n", "            if self.tofu_db is not None:\n")],
+  "F1:client.session:GeminiClient._get_single:not-deferred")
+M("C01", "benign-chunked-body-write", "benign",
+  [(P, SR, "        if body:\n            self.transport.write(body)\n", "        for offset in range(0, len(body), 65536):\n            self.transport.write(body[offset : offset + 65536])\n")])
+M("C01", "chunked-write-encode-in-loop", "breaking",
+  [(P, SR, "        if body:\n            self.transport.write(body)\n", "        text = response.body if isinstance(response.body, str) else ''\n        for offset in range(0, len(text), 65536):\n            self.transport.write(text[offset : offset + 65536].encode('utf-8'))\n")],
+  "W2:server.protocol:GeminiServerProtocol._send_response:may-raise-after-write")
